@@ -588,7 +588,7 @@ def run(case):
                 rb_, fb_ = boundary_field(case["mesh"], mesh, case["fk"], field, mask)
                 one = fem.SolidBodyPressure(fb_, pressure=1.0)
                 ref[nm] = (one.assemble.vector(field).toarray(), fem.SolidBodyPressure(fb_, pressure=1.0).assemble.matrix(field).toarray())
-            ops = [(w, X, q) for w in ("vector", "matrix") for X in ("A", "B", None) for q in (None, 2.5)] + [("update", None, -0.4)]
+            ops = [(w, X, q) for w in ("vector", "matrix") for X in ("A", "B", None) for q in (None, 2.5, 0.0)] + [("update", None, -0.4)]  # (0.0: zero crossing of a pressure table)
             nh = 0
             for depth in (1, 2):
                 for seq in itertools.product(range(len(ops)), repeat=depth):
